@@ -20,6 +20,7 @@ import MTVerif.Model.Imports
 import MTVerif.Model.EvalAnno
 import MTVerif.Model.TDStub
 import MTVerif.Model.ModuleBuild
+import MTVerif.Model.Enforce
 namespace MT
 open Sexp
 
@@ -152,6 +153,10 @@ def handle (st : DState) (req : Sexp) : Except String (DState × Sexp) :=
       .ok (st, sexpOfTy (getType (← natOf k) (← valOf v)))
   | .list (.atom "shrink" :: k :: ts) => do
       .ok (st, sexpOfTy (shrink (← natOf k) (← ts.mapM tyOf)))
+  | .list (.atom "stubShrink" :: k :: ts) => do
+      -- C06 at stub time: `shrink_traced_types` = the size limit applied to every stored type, then the merge
+      let k' ← natOf k
+      .ok (st, sexpOfTy (shrink k' ((← ts.mapM tyOf).map (enforce k'))))
   | .list (.atom "infer" :: k :: vs) => do
       .ok (st, sexpOfTy (infer (← natOf k) (← vs.mapM valOf)))
   | .list [.atom "inferRewrite", k, .list vs] => do
